@@ -46,6 +46,13 @@ enum asn1c_fitslong_e {
 };
 enum asn1c_fitslong_e asn1c_type_fits_long(arg_t *arg, asn1p_expr_t *expr);
 
+/*
+ * Check whether the descriptor of the specified INTEGER type has to tell
+ * that the values are unsigned (asn_INTEGER_specifics_t.field_unsigned):
+ * FL_FITS_UNSIGN, or INTEGER_t (-fwide-types) of a (lb..MAX) range, lb >= 0.
+ */
+int asn1c_INTEGER_is_unsigned(arg_t *arg, asn1p_expr_t *expr);
+
 enum asn1c_fitsfloat_e {
     RL_NOTFIT,
     RL_FITS_FLOAT32,
